@@ -324,6 +324,9 @@ def oracle(case, impl, spec):
             continue
         if a != c:
             return 'thread %d computes a different trace with the others than alone: %s' % (t, first_diff(c, a))
+    if int(p['x'].get('tsover', 0)):
+        return ('critical sections of one Mutex overlapped in time: %s pair(s) of sections with intersecting [entered, about to leave] '
+                'intervals (monotonic timestamps taken inside the sections)' % p['x']['tsover'])
     if int(p['x'].get('overlap', 0)):
         return 'critical sections of one Mutex overlapped (%s times)' % p['x']['overlap']
     if p['x'].get('lost', '0') != '0':
@@ -360,8 +363,8 @@ def corr(case, impl, model):
     for t in sorted(mtr):
         want = canon(mtr[t], digests=False)
         for name, got in (('together', p['conc'].get(t)), ('alone', p['alone'].get(t))):
-            if name == 'alone' and t not in live:
-                continue
+            if name == 'alone' and (t not in live or not p['alone']):
+                continue      # never started / case flag n: no stand-alone phase
             if got is None:
                 if name == 'alone' and t == 0:
                     continue
@@ -462,6 +465,9 @@ def split(case):
     f = case.split('|')
     toks = []
     for t, prog in enumerate(f[2:]):
+        if 'n' in f[0]:      # long-hold scenario (every run takes seconds): shrink by whole threads only
+            toks += ['%d:%s' % (t, prog)] if prog.strip() else []
+            continue
         toks += ['%d:%s' % (t, st) for st in top_statements(prog)]
     return (f[0], f[1], len(f) - 2), toks
 
@@ -473,6 +479,17 @@ def join(pre, toks):
         t, st = tk.split(':', 1)
         progs[int(t)].append(st)
     return '%s|%s|%s' % (nm, sched, '|'.join(' '.join(p) for p in progs))
+
+
+def long_hold_case(ms, variant=0):
+    """one thread keeps mutex 0 for ms milliseconds while three others wait for it: by lock(), by a with-block and by
+    lock() after a failed trylock().  Flag n: no stand-alone phase.  Judged by the overlap counters and by the
+    order of the timestamps taken inside the sections — never by a wall-clock threshold."""
+    holder = ('L0 z%d i0 U0 e1' if variant == 0 else 'W0( z%d i0 ) e1') % ms
+    waiters = ['z150 L0 i0 U0 e2', 'z150 W0( i0 ) e3', 'z150 B0 i0 U0 e4']
+    if variant:
+        waiters = ['z150 B0 i0 U0 L0 i0 U0 e2', 'z150 L0 i0 U0 W0( i0 ) e3', 'z150 W0( i0 ) B0 i0 U0 e4']
+    return '1n|0|S1 S2 S3 S4 J1 J2 J3 J4 P1|%s|%s' % (holder, '|'.join(waiters))
 
 
 BENIGN_RACE_SITES = ('Type_Instance', 'Type_Scan', 'Type_Of')
@@ -556,7 +573,8 @@ def run(ctx):
         'thread\'s TLS table grow/rehash/shrink, rounds of forced collections), Thread objects either raw or owned by the '
         'main thread\'s collector (flag g, half of the cases), critical sections by lock/unlock, '
         'trylock loops, try-once sections (skipped when busy) and with-blocks (nested in lock order) with non-atomic counter increments, join + read of the '
-        'joined thread\'s trace; sched_yield/nanosleep injected between instructions by the case seed.  Every worker '
+        'joined thread\'s trace; long-hold exclusion scenarios (one thread keeps a Mutex for 1.3 s and 2.5 s — thorough also 5 s and 11 s — '
+        'while three others wait by lock(), with-block, lock() after a failed trylock(); sections are logged with monotonic timestamps); sched_yield/nanosleep injected between instructions by the case seed.  Every worker '
         'program runs alone first, then all together; the schedule is whatever the kernel produces.  A case is '
         'non-trivial when the harness measured at least two threads inside their programs at the same time '
         '(maxpar >= 2); distinct = distinct implementation transcripts.  Cases the model flags as aborting (uncaught '
@@ -578,7 +596,11 @@ def run(ctx):
                                                     'max_threads_simultaneously_running': 0, 'maxpar_histogram': {},
                                                     'exceptions_caught_by_class': {}, 'collections_that_finalised_something': 0})
 
+    cache = {}
+
     def run_impl(cs):
+        if cs and all(c in cache for c in cs):
+            return [cache.pop(c) for c in cs]      # long-hold scenarios prefetched in the background
         if drv:
             # never run a program on the library that the machine says is out of contract (deadlock = 20 s)
             sp = ctx.run_lines(drv, cs, args=['spec'])[1]
@@ -669,6 +691,20 @@ def run(ctx):
             print('REPLAY: %s\n  impl  %s\n  model %s\n  spec  %s' % (x[4], x[1], x[2], x[3]))
         d.report()
         return
+    # long-hold exclusion scenarios (Mutex_Lock must not give up): started now, side by side with everything else
+    import threading
+    holds = [1300, 2500] if quick else [1300, 2500, 5000, 11000]
+    if getattr(ctx, 'proof_broken', None) and quick:
+        holds += [5000]        # directed search: the static tie on Mutex_Lock (or another obligation) is broken
+    long_cases = [long_hold_case(ms, n % 2) for n, ms in enumerate(holds)]
+    bg_out = {}
+
+    def bg():
+        res = ctx.run_lines(h, long_cases, env=dict(env, H_TIMEOUT='90'), timeout=400, shard=1)[1]
+        for c, o in zip(long_cases, res):
+            bg_out[c] = o
+    bgt = threading.Thread(target=bg)
+    bgt.start()
     d.feed(usable(CORPUS), 'corpus')
     known_finding_probe(ctx, lambda cs: ctx.run_lines(h, cs, env=env, timeout=600)[1])
     if quick:
@@ -693,6 +729,11 @@ def run(ctx):
     if not quick and not os.environ.get('VERIF_NO_TSAN'):
         tsan_pass(ctx, usable([gen_case(ctx.rng, n, 10, i % 5 == 0, safe) for i, n in enumerate([2, 3, 4, 8, 16] * 30)]),
                   run_model, run_spec)
+
+    bgt.join()
+    cache.update(bg_out)
+    ctx.cov['long_hold_scenarios'] = {'hold_ms': holds, 'transcripts': {c: bg_out.get(c, '')[-260:] for c in long_cases}}
+    d.feed(long_cases)
 
     def extra(dd):
         more = usable([gen_case(ctx.rng, None, None, i % 4 == 0, safe) for i in range(600)])
